@@ -32,7 +32,7 @@ inductive PanicSite
 
 inductive Out
   | ok | rst (code : Nat) | ga (code : Nat) | close
-  | held | skip | busy | nohandler | idle
+  | held | skip | queued | busy | nohandler | idle | gone | sfail
   | panic (site : PanicSite)
   deriving DecidableEq, Repr
 
@@ -44,20 +44,31 @@ structure SS where
   got : Nat := 0                -- bodyBytes
   handler : HState := .none
   fly : Fly := .none
+  flow : Int := 0               -- st.flow.n (send window)
   deriving DecidableEq, Repr
 
 def SS.live (s : SS) : Bool := s.phase == .opn || s.phase == .hcr
 
 inductive SEv
-  | hnew (es ok over : Bool) (decl : Option Nat)   -- HEADERS creating the stream
+  | hnew (es ok over : Bool) (decl : Option Nat) (iws : Int)   -- HEADERS creating the stream
   | hagain (es pseudo : Bool)                     -- HEADERS on a stream of the map (trailers)
   | data (n : Nat) (es : Bool)
   | rstc                                          -- RST_STREAM from the client
   | fin | pan                                     -- the handler returns / panics: its frame reaches startFrameWrite
+  | finQueued                                     -- the same while a GOAWAY with an error code has stopped the scheduler
+  | winUpd (inc : Nat)                            -- WINDOW_UPDATE with a non-zero increment
+  | badWinUpd                                     -- WINDOW_UPDATE with increment 0 (stream error from the framer)
   | wrote                                         -- wroteFrame for this stream's frame in flight
   deriving Repr
 
 def closeReset (s : SS) : SS := { s with phase := .closedReset }
+
+def wrap32 (x : Int) : Int := (x + 2147483648) % 4294967296 - 2147483648
+
+/-- `flow.add(n)` with its int32 arithmetic: the new value, or `none` when the call reports overflow -/
+def flowAdd (f n : Int) : Option Int :=
+  let sum := wrap32 (f + n)
+  if (decide (sum > n)) == (decide (f > 0)) then some sum else none
 
 /-- "sender tried to send more than declared Content-Length" -/
 def overDeclared (s : SS) (n : Nat) : Bool :=
@@ -67,12 +78,12 @@ def overDeclared (s : SS) (n : Nat) : Bool :=
 
 /-- error codes: 0 NO_ERROR, 1 PROTOCOL_ERROR, 5 STREAM_CLOSED, 7 REFUSED_STREAM -/
 def sstep (s : SS) : SEv → SS × Out
-  | .hnew es ok over d =>
+  | .hnew es ok over d iws =>
     let ph := if es then Phase.hcr else Phase.opn
     -- a fresh `stream` struct is allocated for the id
-    if over then ({ phase := ph, hasBody := !es }, .close)   -- maxStreamsError: the connection is closed at once
+    if over then ({ phase := ph, hasBody := !es, flow := iws }, .close)   -- maxStreamsError: the connection is closed at once
     else if !ok then ({ phase := .closedReset }, .rst 1)     -- newWriterAndRequest: malformed pseudo headers
-    else ({ phase := ph, hasBody := !es, decl := if es then some 0 else d, handler := .running }, .ok)
+    else ({ phase := ph, hasBody := !es, decl := if es then some 0 else d, handler := .running, flow := iws }, .ok)
   | .hagain es pseudo =>
     if !s.live then (s, .ok)
     else if s.phase == .hcr then (closeReset s, .rst 5)      -- (fix) HEADERS on half-closed(remote)
@@ -110,6 +121,14 @@ def sstep (s : SS) : SEv → SS × Out
       | .closedDone => (s, .panic .writeClosed)
       | .idle => (s, .panic .writeClosed)
       | _ => ({ s with fly := .panicFrame }, .held)
+  | .finQueued =>
+    if s.handler != .running then (s, .nohandler) else ({ s with handler := .finished }, .queued)
+  | .winUpd inc =>
+    if !s.live then (s, .ok)
+    else match flowAdd s.flow inc with
+      | some f => ({ s with flow := f }, .ok)
+      | none => (closeReset s, .rst 3)
+  | .badWinUpd => ((if s.live then closeReset s else s), .rst 1)
   | .wrote =>
     match s.fly with
     | .none => (s, .idle)
@@ -135,6 +154,15 @@ inductive Ev
   | F (id : Nat)
   | P (id : Nat)
   | W
+  | S (ack : Bool) (iws : Option Nat)     -- SETTINGS: ACK / empty / INITIAL_WINDOW_SIZE
+  | G (id : Nat) (ack : Bool)             -- PING
+  | U (id inc : Nat)                      -- WINDOW_UPDATE
+  | Y (id dep : Nat) (excl : Bool)        -- PRIORITY
+  | C (id : Nat)                          -- CONTINUATION following nothing
+  | X (id : Nat)                          -- HEADERS without END_HEADERS followed by DATA
+  | K (id : Nat) (es : Bool)              -- valid request as HEADERS + CONTINUATION
+  | A                                     -- GOAWAY from the client
+  | Q                                     -- graceful shutdown (closeNotifyCh): goAway(NO_ERROR)
   deriving Repr
 
 structure Conn where
@@ -144,38 +172,88 @@ structure Conn where
   streams : Nat → SS := fun _ => {}
   held : Option Nat := none
   ids : List Nat := []
+  goAway : Option Nat := none      -- inGoAway / goAwayCode
+  iws : Int := 65535               -- initialWindowSize (peer's SETTINGS_INITIAL_WINDOW_SIZE)
+  cflow : Int := 65535             -- sc.flow.n
+  unacked : Int := 1               -- unackedSettings (the server's initial SETTINGS)
+  gone : Bool := false             -- readFrames has returned after a framing-level connection error
 
 def Conn.upd (c : Conn) (id : Nat) (r : SS × Out) : Conn × Out :=
   let was := (c.streams id).live
   let now := r.1.live
   let cur := if was && !now then c.cur - 1 else if !was && now then c.cur + 1 else c.cur
   ({ c with streams := fun j => if j = id then r.1 else c.streams j, cur := cur,
-            ids := if c.ids.contains id then c.ids else c.ids ++ [id] }, r.2)
+            ids := if c.ids.contains id then c.ids else c.ids ++ [id],
+            goAway := match r.2 with | .ga code => (if c.goAway.isSome then c.goAway else some code) | _ => c.goAway }, r.2)
 
-def cstep (c : Conn) : Ev → Conn × Out
-  | .H id es k =>
-    if id % 2 != 1 then (c, .ga 1)
-    else if (c.streams id).live then
-      c.upd id (sstep (c.streams id) (.hagain es (match k with | .tr => false | _ => true)))
-    else if id ≤ c.maxId then (c, .ga 1)
-    else
-      let c := { c with maxId := id }
-      let ok := match k with | .ok => true | .cl _ => true | _ => false
-      let d := match k with | .cl n => some n | _ => none
-      c.upd id (sstep (c.streams id) (.hnew es ok (c.cur + 1 > c.adv) d))
+/-- a connection error: `goAway(code)` — a no-op when a GOAWAY was already started; a framing-level error
+    (returned by Framer.ReadFrame) also ends the frame reader. -/
+def connErr (c : Conn) (code : Nat) (framer : Bool) : Conn × Out :=
+  let c := if framer then { c with gone := true } else c
+  if c.goAway.isSome then (c, .ok) else ({ c with goAway := some code }, .ga code)
+
+/-- a rejected SETTINGS: FLOW_CONTROL_ERROR; reported as `sfail` when a GOAWAY is already under way -/
+def settingsErr (c : Conn) (framer : Bool) : Conn × Out :=
+  let r := connErr c 3 framer
+  if c.goAway.isSome then (r.1, .sfail) else r
+
+def Ev.isClient : Ev → Bool
+  | .F _ => false | .P _ => false | .W => false | .Q => false | _ => true
+
+def headersEv (c : Conn) (id : Nat) (es : Bool) (k : Kind) : Conn × Out :=
+  if id == 0 then connErr c 1 true
+  else if c.goAway.isSome then (c, .ok)                       -- processHeaders: ignored while inGoAway
+  else if id % 2 != 1 then connErr c 1 false
+  else if (c.streams id).live then
+    c.upd id (sstep (c.streams id) (.hagain es (match k with | .tr => false | _ => true)))
+  else if id ≤ c.maxId then connErr c 1 false
+  else
+    let c := { c with maxId := id }
+    let ok := match k with | .ok => true | .cl _ => true | _ => false
+    let d := match k with | .cl n => some n | _ => none
+    c.upd id (sstep (c.streams id) (.hnew es ok (c.cur + 1 > c.adv) d c.iws))
+
+/-- SETTINGS_INITIAL_WINDOW_SIZE: every stream of the map gets `flow.add(growth)` -/
+def growAll (c : Conn) (g : Int) : Option (Nat → SS) :=
+  if c.ids.all (fun id => !(c.streams id).live || (flowAdd (c.streams id).flow g).isSome) then
+    some fun j => if (c.streams j).live then
+      { c.streams j with flow := (flowAdd (c.streams j).flow g).getD (c.streams j).flow } else c.streams j
+  else none
+
+/-- processData while inGoAway: DATA is discarded after an error GOAWAY, or for streams above the last one -/
+def discardData (c : Conn) (id : Nat) : Bool :=
+  match c.goAway with
+  | some code => code != 0 || id > c.maxId
+  | none => false
+
+/-- scheduleFrameWrite takes nothing from the queues once a GOAWAY with an error code is under way -/
+def schedStopped (c : Conn) : Bool :=
+  match c.goAway with
+  | some code => code != 0
+  | none => false
+
+def cstepCore (c : Conn) : Ev → Conn × Out
+  | .H id es k => headersEv c id es k
+  | .K id es => headersEv c id es .ok
   | .D id n es =>
-    if id == 0 then (c, .ga 1) else c.upd id (sstep (c.streams id) (.data n es))
+    if id == 0 then connErr c 1 true
+    else if discardData c id then (c, .ok)
+    else c.upd id (sstep (c.streams id) (.data n es))
   | .R id =>
-    if id == 0 then (c, .ga 1)
-    else if !(c.streams id).live && id > c.maxId then (c, .ga 1)
+    if id == 0 then connErr c 1 true
+    else if !(c.streams id).live && id > c.maxId then connErr c 1 false
     else c.upd id (sstep (c.streams id) .rstc)
   | .F id =>
     if c.held.isSome then (c, .busy)
+    else if schedStopped c then
+      c.upd id (sstep (c.streams id) .finQueued)
     else
       let r := c.upd id (sstep (c.streams id) .fin)
       if r.2 == .held then ({ r.1 with held := some id }, r.2) else r
   | .P id =>
     if c.held.isSome then (c, .busy)
+    else if schedStopped c then
+      c.upd id (sstep (c.streams id) .finQueued)
     else
       let r := c.upd id (sstep (c.streams id) .pan)
       if r.2 == .held then ({ r.1 with held := some id }, r.2) else r
@@ -183,15 +261,51 @@ def cstep (c : Conn) : Ev → Conn × Out
     match c.held with
     | none => (c, .idle)
     | some id => ({ c with held := none }).upd id (sstep (c.streams id) .wrote)
+  | .S ack iws =>
+    if ack then
+      let c := { c with unacked := c.unacked - 1 }
+      if c.unacked < 0 then connErr c 1 false else (c, .ok)
+    else match iws with
+      | none => (c, .ok)
+      | some v =>
+        if v > 2147483647 then settingsErr c true              -- rejected by the frame parser
+        else
+          let g := (v : Int) - c.iws
+          let c := { c with iws := v }
+          match growAll c g with
+          | some st => ({ c with streams := st }, .ok)
+          | none => settingsErr c false
+  | .G id _ => if id != 0 then connErr c 1 true else (c, .ok)
+  | .U id inc =>
+    if inc == 0 then
+      (if id == 0 then connErr c 1 true else c.upd id (sstep (c.streams id) .badWinUpd))
+    else if id == 0 then
+      match flowAdd c.cflow inc with
+      | some f => ({ c with cflow := f }, .ok)
+      | none => connErr c 3 false
+    else c.upd id (sstep (c.streams id) (.winUpd inc))
+  | .Y id _ _ => if id == 0 then connErr c 1 true else (c, .ok)
+  | .C _ => connErr c 1 true
+  | .X _ => connErr c 1 true
+  | .A => (c, .ok)                                              -- a client GOAWAY is ignored
+  | .Q => if c.goAway.isSome then (c, .ok) else ({ c with goAway := some 0 }, .ga 0)
+
+/-- one serve-loop iteration -/
+def cstep (c : Conn) (e : Ev) : Conn × Out :=
+  if e.isClient && c.gone then (c, .gone) else cstepCore c e
 
 def Out.terminal : Out → Bool
-  | .ga _ => true | .close => true | .panic _ => true | _ => false
+  | .close => true | .panic _ => true | _ => false
 
-/-- run a schedule; the script stops at the first terminal outcome (the connection is over). -/
+/-- the schedule stops when the connection is closed or panics, and (harness rule) at a SETTINGS that ends
+    in a flow-control GOAWAY, whose partial stream updates depend on Go's map order. -/
+def stops (e : Ev) (o : Out) : Bool :=
+  o.terminal || (match e, o with | .S _ _, .ga 3 => true | .S _ _, .sfail => true | _, _ => false)
+
 def runEvs : Conn → List Ev → List Out → Conn × List Out
   | c, [], acc => (c, acc.reverse)
   | c, e :: r, acc =>
     let x := cstep c e
-    if x.2.terminal then (x.1, (x.2 :: acc).reverse) else runEvs x.1 r (x.2 :: acc)
+    if stops e x.2 then (x.1, (x.2 :: acc).reverse) else runEvs x.1 r (x.2 :: acc)
 
 end BfeVerif.C35
